@@ -88,6 +88,12 @@ impl<'i> Attribute<'i> {
         }
     }
 
+    /// Encodes a name for a lookup. Unlike [`Self::name_from_string`], which validates names that
+    /// will be serialized, this accepts every name the parser can produce (e.g. `=b` in `<a =b>`).
+    fn lookup_name(name: &str, encoding: &'static Encoding) -> Option<BytesCow<'static>> {
+        BytesCow::owned_from_str_without_replacements(name.to_ascii_lowercase(), encoding).ok()
+    }
+
     /// Returns the name of the attribute, always ASCII lowercased.
     #[inline]
     #[must_use]
@@ -195,7 +201,7 @@ impl<'i> Attributes<'i> {
         name: &str,
         map: impl Fn(&Attribute<'_>) -> R,
     ) -> Option<R> {
-        let name = Attribute::name_from_string(name.to_ascii_lowercase(), self.encoding).ok()?;
+        let name = Attribute::lookup_name(name, self.encoding)?;
         let check = move |attr: &Attribute<'_>| {
             if eq_case_insensitive(&attr.name.as_ref(), &name.as_ref()) {
                 Some(map(attr))
@@ -250,7 +256,7 @@ impl<'i> Attributes<'i> {
     }
 
     pub fn remove_attribute(&mut self, name: &str) -> bool {
-        let Ok(name) = Attribute::name_from_string(name.to_ascii_lowercase(), self.encoding) else {
+        let Some(name) = Attribute::lookup_name(name, self.encoding) else {
             return false;
         };
         let items = self.as_mut_vec();
